@@ -35,7 +35,7 @@ theorem globals_written_only_by_registry_functions :
 
 /-- C20: apart from the registries and read-only tables/sentinel errors there is no package-level state -/
 theorem globals_kinds :
-    globals.all (fun g => g.2.2.1 == "error" || g.2.2.1 == "map" || g.2.2.1 == "slice" || g.2.2.1 == "scalar") = true := by
+    globals.all (fun g => g.2.2.1 == "error" || g.2.2.1 == "map" || g.2.2.1 == "slice" || g.2.2.1 == "array" || g.2.2.1 == "scalar") = true := by
   decide +kernel
 
 /-- C18: the frequency tables in aac/aac.go are the model's table and its inverse -/
